@@ -128,6 +128,22 @@ def _is_container_value(v):
 RESTRUCTURED_UNDECIDED = [False]      # set by a rule around agree_ref: regrouped statements are UNDECIDED, not violations
 
 
+def value_where_reached(e, key='value'):
+    """the stored value of an event simplified under the event's own path condition (a local that is bound only under
+    `if two_pols:` and read only under the same test is the bound value there, not 'possibly undefined')"""
+    v = e.data[key]
+    asg = {}
+    for c in e.pc:
+        ca = c.single_atom()
+        if ca is not None and ca.kind == 'not':
+            ia = ca.args[0].single_atom()
+            if ia is None or ia.kind != 'and':
+                asg[ca.args[0].key] = False
+        elif ca is None or ca.kind != 'and':
+            asg[c.key] = True
+    return T.assume(v, asg) if asg else v
+
+
 def _match_groups(ctx, rule, title, fi, what_label, A, B, comps, describe):
     """Compare two collections of events irrespective of the interleaving of INDEPENDENT events.
     comps(e) -> [(label, term)].  Pass 1 pairs events whose components are all EQUAL (any position);
@@ -469,8 +485,18 @@ def agree_ref(ctx, fi, ref_src, title, what=('return', 'heap', 'substores'), rul
         rb = [e for e in IR.events if e.kind == 'raise']
         _match_groups(ctx, rule, title, fi, 'rejecting path', ra, rb, lambda e: [('guard', e.cond())], txt)
     if 'substores' in what:
-        sa = [e for e in I.events if e.kind == 'store' and e.data.get('target') == 'sub']
-        sb = [e for e in IR.events if e.kind == 'store' and e.data.get('target') == 'sub']
+        def scratch(II, e):
+            """an item store into a local that holds a freshly computed arithmetic value (n = x - 16*(x // 16); n[n >= 8] -= 16),
+            bound in the same loop iteration: no other object can see it, and its effect is part of every later value that
+            reads the local -- compared there, not as a store of its own"""
+            bn = e.data.get('base_node')
+            if not isinstance(bn, ast.Name) or _root_base(e.data['base']).single_atom() is not None:
+                return False
+            defs = [d for d in II.events if d.kind == 'store' and d.data.get('target') == 'name' and d.data.get('name') == bn.id
+                    and d.seq < e.seq]
+            return bool(defs) and [l['id'] for l in defs[-1].loops] == [l['id'] for l in e.loops]
+        sa = [e for e in I.events if e.kind == 'store' and e.data.get('target') == 'sub' and not scratch(I, e)]
+        sb = [e for e in IR.events if e.kind == 'store' and e.data.get('target') == 'sub' and not scratch(IR, e)]
         _match_groups(ctx, rule, title, fi, 'buffer store', sa, sb,
                       lambda e: [('container', _root_base(e.data['base'])), ('index', e.data['key']), ('value', e.data['value']),
                                  ('guard', e.cond())], txt)
